@@ -30,8 +30,20 @@ def _profile_collect(store):
     return prof
 
 
+def dec_args(args):
+    def dec(v):
+        if isinstance(v, dict) and set(v) == {"__bytes__"}:
+            return bytes.fromhex(v["__bytes__"])
+        if isinstance(v, list):
+            return [dec(x) for x in v]
+        return v
+    return {k: dec(v) for k, v in args.items()}
+
+
 def run(module, func, args, profile=False):
     from vf import hlib
+
+    args = dec_args(args)
 
     mod = importlib.import_module(module)
     fn = getattr(mod, func)
